@@ -32,7 +32,7 @@ import (
 
 func init() {
 	ntm.InitIconModule()
-	Register(&Prop{ID: "C29", Gen: c29Gen, New: func() Runner { return c29Runner{} }})
+	Register(&Prop{ID: "C29", Gen: c29Gen, New: func() Runner { return &c29Runner{} }})
 }
 
 var (
@@ -220,13 +220,56 @@ func c29ErrClass(err error) string {
 	return "err-recover"
 }
 
-type c29Runner struct{}
+// c29Runner keeps ONE proof context object alive across the cverify/cpart ops of a case.
+type c29Runner struct {
+	pc      module.BTPProofContext
+	p2      string
+	valsTxt string
+	useKept bool
+}
 
-func (c29Runner) Step(t []string, o *Oracle) string {
+func (r *c29Runner) context(path string, vals []int) module.BTPProofContext {
+	if r.useKept {
+		return r.pc
+	}
+	return c29Context(path, vals)
+}
+
+func (r *c29Runner) Step(t []string, o *Oracle) string {
 	if len(t) == 0 {
 		return "bad-op"
 	}
 	switch t[0] {
+	case "ctx":
+		if len(t) != 3 || (t[1] != "ek" && t[1] != "eb" && t[1] != "ik" && t[1] != "ib") {
+			return "bad-op"
+		}
+		vals, ok := c29ParseVals(t[2])
+		if !ok {
+			return "bad-op"
+		}
+		r.pc, r.p2, r.valsTxt = c29Context(t[1]+"b", vals), t[1], t[2]
+		return "ok"
+	case "cverify", "cpart":
+		if r.pc == nil || len(t) < 2 || (t[1] != "a" && t[1] != "b") {
+			return "bad-op"
+		}
+		var t2 []string
+		if t[0] == "cverify" {
+			if len(t) != 4 {
+				return "bad-op"
+			}
+			t2 = []string{"verify", r.p2 + t[1], t[2], r.valsTxt, t[3]}
+		} else {
+			if len(t) != 5 {
+				return "bad-op"
+			}
+			t2 = []string{"part", r.p2 + t[1], t[2], r.valsTxt, t[3], t[4]}
+		}
+		r.useKept = true
+		defer func() { r.useKept = false }()
+		o.Count("stateful-" + t[0])
+		return r.Step(t2, o)
 	case "mv", "dec", "pcfor":
 		return c29MapStep(t, o)
 	case "verify":
@@ -253,7 +296,7 @@ func (c29Runner) Step(t []string, o *Oracle) string {
 		if t[1][2] == 'a' && len(slots) > len(vals) {
 			return "bad-op"
 		}
-		pc := c29Context(t[1], vals)
+		pc := r.context(t[1], vals)
 		sigs := make([]*crypto.Signature, len(slots))
 		present := 0
 		for i, sl := range slots {
@@ -333,7 +376,7 @@ func (c29Runner) Step(t []string, o *Oracle) string {
 		if err != nil || err2 != nil || !ok || !ok2 {
 			return "bad-op"
 		}
-		pc := c29Context(t[1], vals)
+		pc := r.context(t[1], vals)
 		var pp module.BTPProofPart
 		if t[1][2] == 'b' {
 			var x struct {
@@ -435,8 +478,68 @@ func c29BadSig(g *Gen, vals []int, i, dh int) string {
 	}
 }
 
+// c29GenStateful: one context object, several decisions in a row; class "replay of an
+// earlier decision's signatures in later slots": after decision A was verified (whole proof
+// or part by part), a proof for decision B carries one genuine signature over B in its
+// lowest populated slot and the old signatures over A in the others.
+func c29GenStateful(g *Gen) {
+	n := g.Pick(4, 4, 5, 6, 7, 10)
+	vals := make([]int, n)
+	base := 100 + g.Intn(20)
+	for i := range vals {
+		vals[i] = base + i
+	}
+	g.Emit("ctx %s %s", []string{"ek", "eb", "ik", "ib"}[g.Intn(4)], c29ValsStr(vals))
+	pm := func() string { return string("ab"[g.Intn(2)]) }
+	full := func(dh int) []string {
+		s := make([]string, n)
+		for i := range s {
+			s[i] = fmt.Sprintf("s%dm%d", vals[i], dh)
+		}
+		return s
+	}
+	a := g.Intn(3)
+	rounds := 1 + g.Intn(3)
+	for rd := 0; rd < rounds; rd++ {
+		b := a + 1 + g.Intn(2)
+		// decision A gets verified on this context
+		if g.Intn(2) == 0 {
+			g.Emit("cverify %s %d %s", pm(), a, strings.Join(full(a), ","))
+		} else {
+			for _, i := range g.R.Perm(n)[:1+g.Intn(n)] {
+				g.Emit("cpart %s %d %d s%dm%d", pm(), a, i, vals[i], a)
+			}
+		}
+		// proof for B: genuine signature(s) over B in the lowest slot(s), replays of A after
+		slots := full(a)
+		low := g.Intn(2)
+		for i := 0; i < low; i++ {
+			slots[i] = "-"
+		}
+		genuine := 1 + g.Intn(2)
+		for i := low; i < low+genuine && i < n; i++ {
+			slots[i] = fmt.Sprintf("s%dm%d", vals[i], b)
+		}
+		g.Emit("cverify %s %d %s", pm(), b, strings.Join(slots, ","))
+		// replayed single parts, and the honest proof for B
+		i := g.Intn(n)
+		g.Emit("cpart %s %d %d s%dm%d", pm(), b, i, vals[i], a)
+		if g.Intn(2) == 0 {
+			g.Emit("cverify %s %d %s", pm(), b, strings.Join(full(b), ","))
+			// ... after which A's signatures must still not count for B, nor B's for A
+			g.Emit("cverify %s %d %s", pm(), a, strings.Join(full(b), ","))
+		}
+		a = b
+	}
+	g.Emit("reset")
+}
+
 func c29Gen(g *Gen) {
 	for c := 0; c < g.N; c++ {
+		if g.Intn(8) == 0 {
+			c29GenStateful(g)
+			continue
+		}
 		if g.Intn(3) == 0 {
 			c29GenMap(g)
 			continue
